@@ -165,6 +165,19 @@ structure SufOK {D : Type} (c : Codec D) (s : Suf D) : Prop where
   count : (s.entries c).length ≤ 2147483599
   table : s.table = [] ∨ ∃ init last, s.table = joinNl init ++ last ∧ GoodTable init last ∧ s.table.length ≤ 199999999 ∧ s.table ≠ []
 
+/-- the real values of a solution that `WriteSolFile` prints: duals, primals, and the non-zero entries of the real-valued OUTPUT suffixes, in file order -/
+def writtenReals {D : Type} (c : Codec D) (s : Sol D) : List D :=
+  s.duals ++ s.primals ++
+    s.sufs.flatMap (fun x => if isOutput x.kind && isFloat x.kind then x.dvals.filter (fun v => !c.isZero v) else [])
+
+/-- the texts of reals in a list of delivered events (vector items; items of suffixes whose kind has the FLOAT bit), in order -/
+def realItems (evs : List Event) : List Bytes :=
+  evs.flatMap (fun e => match e with
+    | .dual _ v => v.items.map (·.val)
+    | .primal _ v => v.items.map (·.val)
+    | .suffix _ kind _ _ _ _ v => if (kind.toNat / 4) % 2 = 1 then v.items.map (·.val) else []
+    | _ => [])
+
 /-- the lines the reader will see: interior empty lines are written as a single space, a final empty
 line is the terminator itself -/
 def escLines : List Bytes → List Bytes
